@@ -6,7 +6,8 @@ to backup 0 before the truncating open (exactly when a previous dump exists and 
 are configured), U3 the backups are shifted i-1 -> i in decreasing i, starting at
 min(max-1, number of backups), before U2's rename, U4 a failed rename is never ignored,
 U5 the dump site closes the writer before the step loop continues and a requested stop
-is preceded by a dump.
+is preceded by a dump, U6 (c14_abs.py) rename-before-truncate in every reachable counter state,
+U7 (c14_remove.py) an explicit deletion in the rotation never removes a slot that is to be kept.
 """
 import sympy as sp
 
@@ -673,7 +674,7 @@ def run(chk, prog):
 
     # ---- U7: explicit deletions in the rotation never hit a backup that is to be kept (c14_remove.py) ----------------
     from . import c14_remove
-    n_u7 = c14_remove.rule_U7(chk, fn, g, shift_renames, dump_renames, dump_local)
+    n_u7 = c14_remove.rule_U7(chk, fn, g, shift_renames, dump_renames, dump_local, name_helpers)
     chk.floor("U7", n_u7, 1)
 
     # ---- U5: caller --------------------------------------------------------
